@@ -147,6 +147,13 @@ def run(ctx, rep) -> None:
     rep.attempt("recovery_agreement", recovery_agreement, ctx, rep, "C07.1", [FSDP, HSDP])
     rep.attempt("sibling_pairs", sibling_pairs, ctx, rep, "C07.2", [(FSDP, HSDP, m) for m in ("_merge_and_block_parameters", "_merge_and_block_gradients", "_split_tensor_block_recovery", "_construct_composable_block_ids")] + [(DIST, FSDP, "update_params"), (DIST, FSDP, "merge_and_block_gradients")])
     rep.attempt("recovery_rules", recovery_rules, ctx, rep, "C07.2", [FSDP, HSDP])
+    from .c15 import slab_arithmetic
+
+    rep.rule("C07.2.5", "integer arithmetic of one split of the recovery (same rule as C15.5)")
+    rep.attempt("slab_arithmetic", slab_arithmetic, ctx, rep, "C07.2.5", [FSDP, HSDP])
+    from .c04 import _change_guards
+
+    rep.attempt("_change_guards", _change_guards, ctx, rep, "C07.3")
     rep.attempt("collective_uniformity", collective_uniformity, ctx, rep, "C07.3", {"HSDPDistributor"})
     rep.attempt("buffer_protocol", buffer_protocol, ctx, rep, "C07.3", HSDP)
     rep.rule("C07.6", "communication dtype table, allocation forwarding and mesh-dimension roles of the HSDP distributor")
